@@ -250,7 +250,11 @@ def record_queries(chk, S, tab, rng, nbatch):
             # repeated rows get equal values, each equal to the full-basis value (per-sample function)
             full = make_observable(op).apply(S.model, lattice.space(n))
             chk.evaluations += 1
-            if not torch.allclose(out, full[ks], rtol=1e-12, atol=1e-14):
+            # (the same code on two batch compositions: the local value is a sum of up to n amplitude ratios that may
+            # cancel, so its rounding noise is a few ulps of the LARGEST ratio of the model, not of the value itself -
+            # seen once: 2.678297e-05 in a model whose values reach 1e5, differing in the 7th digit)
+            noise = 1e-11 * max(1.0, float(full.abs().max()))
+            if not torch.allclose(out, full[ks], rtol=1e-12, atol=noise):
                 chk.violation("queries:%s:%s:not-a-per-sample-function" % (S.kind, op["k"]),
                               dict(det, got=out.tolist(), expected=full[ks].tolist()))
     return True
